@@ -26,8 +26,15 @@ func ActiveFault(p *sdl.Program) string {
 
 // AllMerges returns the merged configuration for every loader sequence the contract
 // admits (sources with equal class and Order may come in either order).
-func AllMerges(p *sdl.Program) []map[string]string {
-	seq, _ := LoaderSequence(p)
+func AllMerges(p *sdl.Program) []map[string]string { return allMerges(ActiveSources(p)) }
+
+// AllMergesAfterReload: the same with the late sources included.
+func AllMergesAfterReload(p *sdl.Program) []map[string]string {
+	return allMerges(ActiveSourcesAfterReload(p))
+}
+
+func allMerges(act []*sdl.Source) []map[string]string {
+	seq, _ := loaderSequence(act)
 	// tie groups: maximal runs of equal (class, order) within the first two classes
 	type grp struct{ items []*sdl.Source }
 	var groups []grp
@@ -126,32 +133,23 @@ func (w *World) CheckConfigMerge(o *Obs) []Violation {
 	if !o.OK() {
 		return nil // failures for other reasons (validation, required values) are C09 / C18
 	}
-	merges := AllMerges(p)
-	for _, path := range AllLeafPaths(p) {
-		got := o.Get[path]
-		adm := map[string]bool{}
-		for _, m := range merges {
-			if v, ok := m[path]; ok {
-				adm[v] = true
-			} else {
-				adm["<nil>"] = true
-			}
-		}
-		if adm[got] {
-			continue
-		}
-		var who []string
+	vs = append(vs, w.checkMergeStage(o.Get, AllMerges(p), "")...)
+	if o.Get2 != nil {
+		lateFault := false
 		for _, s := range p.Sources {
-			if v, ok := FlattenDoc(s.Doc)[path]; ok {
-				who = append(who, fmt.Sprintf("%s(%s via %s)=%s", s.ID, s.Kind, s.Via, v))
+			if s.Late && failingFault(s.Fault) {
+				lateFault = true
 			}
 		}
-		oracle := "wrong-precedence"
-		if got == "<nil>" {
-			oracle = "key-lost"
+		if !lateFault {
+			if o.ReloadErr != "" {
+				vs = append(vs, v("C15", "reload-failed", "", "adding a source after Run and initialising the configuration again failed: "+o.ReloadErr))
+			} else {
+				vs = append(vs, w.checkMergeStage(o.Get2, AllMergesAfterReload(p), " after a source was added and the configuration initialised again")...)
+			}
 		}
-		vs = append(vs, v("C15", oracle, path, fmt.Sprintf("App.Get(%q) = %s, the reference merge admits %v; supplied by %v; sources in option order: %s", path, got, sdl.SortedKeys(adm), who, describeSources(p))))
 	}
+	merges := AllMerges(p)
 	// a prefix-bound struct field sees the same merge
 	if len(merges) == 1 {
 		m := merges[0]
@@ -230,6 +228,17 @@ func evalConf(cf *sdl.Conf, cfg map[string]string) confExpect {
 		} else {
 			val = strconv.Itoa(x * y)
 		}
+	case "nested":
+		sel, okS := cfg["other.sel"]
+		a, okA := cfg["sim."+sel]
+		b, okB := cfg[cf.Keys[0]]
+		if !okS || !okA || !okB {
+			e.Open = true
+			return e
+		}
+		x, _ := strconv.Atoi(a)
+		y, _ := strconv.Atoi(b)
+		val = strconv.Itoa(x + y)
 	case "prefixInt", "prefixStr":
 		v, ok := cfg[cf.Keys[0]]
 		if !ok {
@@ -365,12 +374,51 @@ func (w *World) CheckConfigStages(o *Obs) []Violation {
 			}
 			if got != x.e.Value {
 				oracle := "bound-value-differs"
-				if x.cf.Menu == "sum" || x.cf.Menu == "mul" {
+				if x.cf.Menu == "sum" || x.cf.Menu == "mul" || x.cf.Menu == "nested" {
 					oracle = "expression-result-differs"
 				}
 				vs = append(vs, v("C18", oracle, x.inst+"."+x.cf.Field, fmt.Sprintf("%s.%s (%s %v default=%q) holds %q, the menu evaluator gives %q over configuration %v", x.inst, x.cf.Field, x.cf.Menu, x.cf.Keys, x.cf.Default, got, x.e.Value, cfg)))
 			}
 		}
+	}
+	return vs
+}
+
+// checkMergeStage compares the observed leaves with the admissible merges.
+func (w *World) checkMergeStage(got map[string]string, merges []map[string]string, when string) []Violation {
+	var vs []Violation
+	p := w.P
+	if got == nil {
+		return nil
+	}
+	for _, path := range AllLeafPaths(p) {
+		g := got[path]
+		adm := map[string]bool{}
+		for _, m := range merges {
+			if v, ok := m[path]; ok {
+				adm[v] = true
+			} else {
+				adm["<nil>"] = true
+			}
+		}
+		if adm[g] {
+			continue
+		}
+		var who []string
+		for _, s := range p.Sources {
+			if v, ok := FlattenDoc(s.Doc)[path]; ok {
+				late := ""
+				if s.Late {
+					late = " late"
+				}
+				who = append(who, fmt.Sprintf("%s(%s via %s%s)=%s", s.ID, s.Kind, s.Via, late, v))
+			}
+		}
+		oracle := "wrong-precedence"
+		if g == "<nil>" {
+			oracle = "key-lost"
+		}
+		vs = append(vs, v("C15", oracle, path, fmt.Sprintf("App.Get(%q) = %s%s, the reference merge admits %v; supplied by %v; sources in option order: %s", path, g, when, sdl.SortedKeys(adm), who, describeSources(p))))
 	}
 	return vs
 }
